@@ -71,8 +71,8 @@ PROPS = {
     },
     "C02": {
         "functions": ["stream::Parser::{compress,consume_stream,discard_stream,consume_output,output_buffer,stream_buffer,input_buffer}", "stream::Parser::parse_payload (Stream/Skip/Values)", "stream::Parser::parse_head", "stream::Parser::parse (loop glue)"],
-        "bounds": "24-byte buffer with symbolic contents, EVERY geometry parsed_start<=gap_start<=raw_start<=free_start<=24, payload_rem 0..65535, padding_rem 0..255, every role/id/active stream; dest None or Some(len 0..24); Values: 1..6 raw bytes; parse() glue: <= 9 raw bytes (at most one following header)",
-        "outside": "buffers larger than 24 bytes (the code has no size-dependent branch other than the index arithmetic that is symbolic here - stated, not proved); whole-parse() compositions over more than one following header; Clone of a parser",
+        "bounds": "24-byte buffer with symbolic contents, EVERY geometry parsed_start<=gap_start<=raw_start<=free_start<=24, payload_rem 0..65535, padding_rem 0..255, every role/id/active stream; dest None or Some(len 0..24); Values: 1..6 raw bytes; parse() glue: <= 9 raw bytes (at most one following header); whole parse(): the trace [Stdin(3) | unknown type | Stdin end] cut at every offset (dest None) and [Stdin(2) | Stdin(1)] delivered directly into a caller buffer of 2..4 bytes in ONE call (c02_parse_two_records_dest)",
+        "outside": "buffers larger than 24/32 bytes (the code has no size-dependent branch other than the index arithmetic that is symbolic here - stated, not proved); whole-parse() runs other than the two concrete-shaped traces; Clone of a parser",
         "assumptions": [E2, E5, E8],
         "level_text": "Bounded model checking of one-step lemmas from an arbitrary parser state: each buffer operation and each phase of parse() is compared with a reference over the abstract state (parsed bytes, raw bytes, pending output, record accounting). Because the start state is arbitrary under the representation invariant - which each lemma re-establishes - the lemmas compose to every history of caller actions and every chunking.",
         "level_note": "The composition (lemmas => every history) is a written argument in DESIGN.md section 7/C02; each lemma is a solver query.",
@@ -111,7 +111,7 @@ PROPS = {
     },
     "C01": {
         "functions": ["request::HeaderState::drive", "request::ParamsState::drive", "ParamsStateInner::{parse_buffered,parse_stream,make_cgivar}", "SkipState<ParamsStateInner|Request>::drive", "OwnedVarName::from_compact"],
-        "bounds": "BeginRequest: every 16-byte record; framing: every payload_rem/padding_rem, 0..24 symbolic input bytes, every following header; cross-record reassembly: carry-over buffer of 1,2,3,5 (thorough 8) symbolic bytes + 0..6 new bytes + symbolic rec_end (both 1- and 4-byte length prefixes, cuts inside a prefix, pairs spread over 3+ records); in-place pass: records of 3 and 5 (thorough 7) symbolic bytes",
+        "bounds": "BeginRequest: every 16-byte record; framing: every payload_rem/padding_rem, 0..24 symbolic input bytes, every following header; parse_stream WITH a carried-over pair (c01_parse_stream_carry_*: 1 carried byte + 2 record bytes quick; 1+5 and 2+4 thorough: reassembled pair, following pairs, tail and the consumed count against a reference decoding of carry ++ data); cross-record reassembly: carry-over buffer of 1,2,3,5 (thorough 8) symbolic bytes + 0..6 new bytes + symbolic rec_end (both 1- and 4-byte length prefixes, cuts inside a prefix, pairs spread over 3+ records); in-place pass: records of 3 and 5 (thorough 7) symbolic bytes",
         "outside": "environment equality end to end is compositional (framing lemmas + name lemma + C19 + std HashMap), not one query; pairs larger than the byte bounds; make_cgivar's lossy UTF-8 + interning on symbolic bytes only up to 3 bytes (c19_constructors) and concrete interned names",
         "assumptions": [E2, E3, E4, E8],
         "level_text": "Bounded model checking of the per-state lemmas of the preamble parser from arbitrary states: the sequence of (name bytes, value bytes) handed to the environment equals the name-value decoding of carry-over + consumed bytes, for every cut.",
@@ -142,9 +142,9 @@ PROPS = {
         "level_note": "A genuine defect was found here and repaired (/repo 6faef83); known_findings.json lists it as fixed (suppresses nothing). The claim is about the glue for ANY parser behaviour; that the parser processes every complete record per call is C01/C02.",
     },
     "C09": {
-        "functions": ["Request::poll_read (AsyncRead)", "Request::poll_input", "Request::poll_output", "stream::Parser::{set_stream,consume_stream,stream_buffer}", "stream::Parser::parse (concrete-shaped trace, every cut)", "Role::{input_streams,next_input_stream}"],
+        "functions": ["Request::poll_read (AsyncRead)", "Request::poll_fill_buf / consume (AsyncBufRead)", "Request::{new,is_writeable,output_stream}", "Request::poll_input", "Request::poll_output", "stream::Parser::{set_stream,consume_stream,stream_buffer}", "stream::Parser::parse (concrete-shaped trace, every cut)", "Role::{input_streams,next_input_stream}"],
         "bounds": "glue: as C08 (one poll, symbolic state, parser contract with a ghost stream of 8 symbolic bytes); stream selection: c18_set_stream (every state); real parser on the trace [Stdin(3 bytes, pad 5) | unknown type | Stdin end] cut at every offset 0..32",
-        "outside": "AsyncBufRead has one harness of its own (c09_glue_fill_buf: one poll_fill_buf + consume from the symbolic state), not a multi-call one; writeable()/output_stream() gating is not separately checked; sequences of polls follow by induction over the symbolic state, not by a multi-poll query",
+        "outside": "AsyncBufRead has one harness of its own (c09_glue_fill_buf: one poll_fill_buf + consume from the symbolic state), not a multi-call one; writeable gating: Request::new (every role), output_stream() refusing a not-writeable request (should_panic harness), poll_input making a Filter request writeable only on - and on - its final stream (c09_glue_writeable_gate); the await-able writeable() itself only through c11_close_not_writeable; sequences of polls follow by induction over the symbolic state, not by a multi-poll query",
         "assumptions": [E2, E5, E7, E8, "parser contract stubs (see C08)"],
         "level_text": "Bounded model checking: bytes handed to the caller are exactly the bytes the parser delivered, in order and once (ghost stream), buffered data is served first without touching parser or transport, a 0-byte read happens only at end of stream, a Pending result never loses delivered bytes.",
         "level_note": "",
@@ -158,20 +158,20 @@ PROPS = {
         "level_note": "",
     },
     "C11": {
-        "functions": ["request::ParamsState::drive (abort during Params)", "stream::Parser::parse_head (abort during streams)", "From<parser::Error> for io::Error", "request::HeaderState::drive (stale records)", "From<ExitStatus> for EndRequest / make_request_epilogue"],
-        "bounds": "every header in every state (see C01/C02/C04): abort for the own id during Params => exactly one EndRequest(RequestComplete, 0, id) and return to the initial state; during streams => Err(AbortRequest) with the header retained (repeats); abort for other ids ignored; AbortRequest => io ConnectionAborted (and only it); ExitStatus::ABORT = Complete('ABRT')",
-        "outside": "the handler-facing half in Token::run (ConnectionAborted from the handler => ExitStatus::ABORT => close) is a 5-line match that is not reached by any harness (Token needs async_lock/event-listener, see C13); close()/record_boundary() tolerating the abort is only in a tier=manual harness (c07_close_drain, does not fit); 'the same connection then serves the next request' is compositional (C05)",
+        "functions": ["request::ParamsState::drive (abort during Params)", "stream::Parser::parse_head (abort during streams)", "From<parser::Error> for io::Error", "request::HeaderState::drive (stale records)", "From<ExitStatus> for EndRequest / make_request_epilogue", "Request::close (abort seen by writeable())", "Request::record_boundary (abort seen while draining)"],
+        "bounds": "every header in every state (see C01/C02/C04): abort for the own id during Params => exactly one EndRequest(RequestComplete, 0, id) and return to the initial state; during streams => Err(AbortRequest) with the header retained (repeats); abort for other ids ignored; AbortRequest => io ConnectionAborted (and only it); ExitStatus::ABORT = Complete('ABRT'); close() of a not-yet-writeable request whose input ends with ConnectionAborted still sends EndRequest and keeps the connection (c11_close_not_writeable, poll_input contract); an AbortRequest seen while draining is ignored (c08_rb_*, parser contract)",
+        "outside": "the handler-facing half in Token::run (ConnectionAborted from the handler => ExitStatus::ABORT => close) is a 5-line match that is not reached by any harness (Token needs async_lock/event-listener, see C13); 'the same connection then serves the next request' is compositional (C05 + c07_close_order_keep)",
         "assumptions": [E2, E4, E5, E8],
         "level_text": "Bounded model checking of the parser-side abort behaviour from arbitrary states plus the error-kind mapping; the connection-task half is outside (stated).",
         "level_note": "",
     },
     "C12": {
-        "functions": ["Request::poll_input (EOF / read error)", "Token::parse_request (EOF / read error)", "From<parser::Error> for io::Error", "Request::record_boundary (only in the tier=manual harness c07_close_drain)"],
-        "bounds": "glue harnesses of C08/C09: transport EOF or error after <= 2 reads at any point: poll_read fails with UnexpectedEof resp. the transport's error and never returns a successful empty read unless the stream ended; parse_request fails with ConnectionReset resp. the transport's error and never hands out a request after EOF/error; no spinning (bounded polls with unwinding assertions)",
-        "outside": "write-side faults (WriteZero / write errors in poll_output, poll_write): not checked; 'nothing is written after a failed write' not checked; whole Token::run termination; EOF at every byte offset of a real byte stream is replaced by EOF at every point of the contract-level execution",
+        "functions": ["Request::poll_input (EOF / read error)", "Request::poll_output (write error / zero-length write)", "StreamWriter::poll_write (write error / zero-length write)", "Token::parse_request (EOF / read error)", "From<parser::Error> for io::Error", "Request::record_boundary (EOF, fatal errors, no false EOF)"],
+        "bounds": "glue harnesses of C08/C09: transport EOF or error after <= 2 reads at any point: poll_read fails with UnexpectedEof resp. the transport's error and never returns a successful empty read unless the stream ended; parse_request fails with ConnectionReset resp. the transport's error and never hands out a request after EOF/error; no spinning (bounded polls with unwinding assertions); write faults: c12_glue_write_fault (poll_output: error or Ok(0) at the 1st or 2nd write call) and c12_writer_fault_3 (StreamWriter: at the 1st..3rd vectored write)",
+        "outside": "write faults inside close() / parse_request's write_all (futures_util) are not injected; whole Token::run termination; EOF at every byte offset of a real byte stream is replaced by EOF at every point of the contract-level execution",
         "assumptions": [E2, E7, E8, "parser contract stubs (see C08)"],
-        "level_text": "Bounded model checking of the read-side fault handling of the glue for every parser behaviour.",
-        "level_note": "Partial: read side only.",
+        "level_text": "Bounded model checking of the fault handling of the glue for every parser behaviour: read side (EOF / error at any point of the contract-level execution) and write side (error or zero-length write at the 1st..3rd write call of a management reply resp. an output record: the operation ends with that error / WriteZero, never Pending or success, nothing is offered to the transport afterwards, and what was offered before is a prefix of the expected record).",
+        "level_note": "",
     },
     "C14": {
         "functions": ["WaitGroup::{new,add_task,tasks,into_future}", "WaitGroupFuture::poll", "Drop for WaitGroupInner", "TaskToken drop", "futures AtomicWaker::{register,wake}"],
@@ -182,12 +182,12 @@ PROPS = {
         "level_note": "Partial: wait-group half of the property only.",
     },
     "C07": {
-        "functions": ["make_request_epilogue", "From<ExitStatus> for EndRequest", "Token::parse_request", "StreamWriter::poll_write"],
-        "bounds": "end-of-request record sequence (empty Stdout, empty Stderr, EndRequest with the exit status and the request id) for every ExitStatus x id as built by make_request_epilogue; parse_request glue (C08 bounds); output records (C10 bounds)",
-        "outside": "Request::close as a whole (order of pending replies vs epilogue, reuse iff KeepConn, draining unread input): three harnesses exist (c07_close_keep_writeable, c07_close_nokeep, c07_close_drain; tier=manual) but the async state machine of close() exhausts 20 GB after 50 min of symbolic execution - seeded change C07-a (pending replies written after the epilogue) is therefore NOT caught by any registered check; exactly-one-handler-invocation and the request loop of Token::run (Token needs async_lock/event-listener, see C13)",
-        "assumptions": [E2, E7, E8, "parser contract stubs (see C08)"],
-        "level_text": "Bounded model checking of the building blocks of the end-of-request protocol (epilogue bytes, reply flushing before waiting, output record framing); the per-connection statement itself (one handler call, reuse decision) is outside and said so.",
-        "level_note": "Partial claim; see 'outside'.",
+        "functions": ["Request::close", "Request::writeable", "Request::record_boundary", "make_request_epilogue", "From<ExitStatus> for EndRequest", "stream::Parser::into_request_parser", "Token::parse_request", "StreamWriter::poll_write"],
+        "bounds": "close() decomposed along its four steps, each decided with the other steps trivially short: (1) tail - order of pending management replies vs epilogue, byte count, reuse iff KeepConn, look-ahead bytes handed to the next request parser (c07_close_order_*: request 7, Overloaded, 2 reply marker bytes, 3 look-ahead bytes, writer accepts every write at once; thorough: + 1 Pending, 1 short write); (2) a request that is not writeable yet - poll_input replaced by its contract (c11_close_not_writeable); (3) draining unread input - record_boundary on its own against the parser contract, two reads of any size incl. one that fills the 24-byte buffer (c07_rb_two_reads), reader/writer Pending (c08_rb_*); (4) epilogue bytes for every ExitStatus x id (c17_epilogue_*); plus parse_request glue (C08 bounds) and output records (C10 bounds)",
+        "outside": "close() is never run end to end with a draining loop AND a Pending transport in one query (the pieces are composed by argument: the steps are sequential and share only the Request state each harness starts from symbolically or at a boundary); exactly-one-handler-invocation and the request loop of Token::run (Token needs async_lock/event-listener, see C13); byte-exact wire image of close() as a whole (c07_close_keep_writeable / c07_close_nokeep with the byte-checking transport stay tier=manual: 20 GB are not enough)",
+        "assumptions": [E2, E7, E8, "parser contract stubs (see C08); poll_input contract stub in c11_close_not_writeable; 'noparse'/'nopollinput': in harnesses that start at a record boundary / writeable, parse, poll_output resp. poll_input are PROVED unreachable"],
+        "level_text": "Bounded model checking of close() step by step (ordering of replies and epilogue, reuse decision, draining without false EOF, abort tolerance) and of the building blocks of the end-of-request protocol; the per-connection statement (one handler call per request) is outside and said so.",
+        "level_note": "Partial claim; see 'outside'. Seeded changes C07-a (replies after the epilogue) and C07-b (compress hoisted out of the draining loop) are caught.",
     },
 }
 NOT_APPLICABLE.update({
